@@ -55,16 +55,30 @@ impl HttpRequest {
         Ok(ret)
     }
     pub async fn write_to(&self, socket: Writer<'_>) -> Result<(), Error> {
+        // a blank or control character in the target, or a line break in a header value, would
+        // re-split the request line or inject header fields at the next hop
+        let bad_target = |c: char| c == ' ' || c.is_ascii_control();
+        if self.method.contains(bad_target) || self.resource.contains(bad_target) {
+            return Err(err_msg("request target can not be represented in a request line"));
+        }
+        if self.headers.iter().any(|(k, v)| {
+            k.contains(bad_target) || v.contains(|c: char| c.is_ascii_control())
+        }) {
+            return Err(err_msg("header can not be represented"));
+        }
         let buf = format!("{} {} {}\r\n", self.method, self.resource, self.version);
-        socket.write(buf.as_bytes()).await.context("write error")?;
+        socket
+            .write_all(buf.as_bytes())
+            .await
+            .context("write error")?;
         for (k, v) in &self.headers {
             socket
-                .write(format!("{}: {}\r\n", k, v).as_bytes())
+                .write_all(format!("{}: {}\r\n", k, v).as_bytes())
                 .await
                 .context("write error")?;
         }
         socket
-            .write("\r\n".as_bytes())
+            .write_all("\r\n".as_bytes())
             .await
             .context("write error")?;
         socket.flush().await.context("flush")
